@@ -115,8 +115,8 @@ Tolerances (all derived here, see ``tol_pos``):
   event of the table is 3e-3 km/s (a 150 s burn at 2e-5 km/s^2) or 5e-3 km/s (impulse): applied twice, not at all, or at another
   event's time >= 0.02 spans away it moves the state by >= 5e-3 km/s x 6 s = 3e-2 km for the 300 s span (tolerance 2e-5 km) -
   3 orders of margin.  Reference: event-free coasts (two-body: closed-form Kepler; SP: the real code without events) between
-  the event times, delta-v added by hand, thrust arcs integrated here with DOP853 at rtol 1e-12 (100x tighter than the library;
-  its own error is below 1e-8 km for these arcs).  Event records: the number of EventStack records of every call equals the
+  the event times, delta-v added by hand, thrust arcs integrated here with DOP853 at rtol 1e-12 (100x tighter than the library).
+  Event records: the number of EventStack records of every call equals the
   number of events due in that call (exact, no tolerance) - a second observation channel that names the event kind applied
   once too often / too few.  Events exactly on a call boundary are excluded (the impulse's event function is zero at its own
   time in both calls: whose event it is is not defined by the property); every event is >= 0.02 spans (6 s) from every split
